@@ -70,6 +70,21 @@ class Ctx:
         if not cond:
             raise AnalysisError(msg)
 
+    def local_anchor(self, fn, *names: str) -> None:
+        """A rule that recognises a construct through the name of a local variable can only decide while that local exists.  If none
+        of the names is bound anywhere in the function (assignment, loop target, with-as), the local was renamed or the code rewritten:
+        the rule says "cannot decide" instead of reporting the construct as missing.  (If the local exists and the construct is gone,
+        the rule reports the violation as before.)"""
+        import ast as _ast
+        bound = set()
+        for n in _ast.walk(fn.node):
+            if isinstance(n, _ast.Name) and isinstance(n.ctx, _ast.Store):
+                bound.add(n.id)
+        missing = [x for x in names if x not in bound]
+        if missing:
+            raise AnalysisError(f'{fn.qualname}: local name(s) {missing} the rule is anchored on are not bound in the function '
+                                f'(renamed or rewritten): cannot decide')
+
     def floor(self, rule: str, n: int, minimum: int, what: str = 'obligations') -> None:
         """Instance floor: fewer obligations than confirmed by hand => the anchor vanished."""
         if n < minimum:
